@@ -111,6 +111,7 @@ func (g *gate) where(who string) string {
 	return g.at[who]
 }
 
+// entryID numbers the cache entries of this replay in insertion order (registered at "ps:inserted").
 func (g *gate) entryID(p interface{}) int {
 	g.mu.Lock()
 	defer g.mu.Unlock()
@@ -121,6 +122,19 @@ func (g *gate) entryID(p interface{}) int {
 	}
 	g.ents = append(g.ents, p)
 	return len(g.ents)
+}
+
+// knownID is entryID without registering: 0 for an entry of another replay (a closer goroutine of the
+// previous schedule may still be on its way when the next replay has installed its hook).
+func (g *gate) knownID(p interface{}) int {
+	g.mu.Lock()
+	defer g.mu.Unlock()
+	for i, e := range g.ents {
+		if e == p {
+			return i + 1
+		}
+	}
+	return 0
 }
 
 func classify(err error) string {
@@ -190,7 +204,7 @@ func (w *world) snapshot(g *gate) (map[string]int, bool) {
 	m := map[string]int{"q1": 0, "q2": 0}
 	for name, t := range texts {
 		if e, ok := w.pdb.Stmts[t]; ok {
-			m[name] = g.entryID(e)
+			m[name] = g.knownID(e)
 		}
 	}
 	return m, w.pdb.Stmts == nil
@@ -365,7 +379,10 @@ func Replay(s Schedule) (Obs, error) {
 	useStmt := map[int]*sql.Stmt{} // entry -> the *sql.Stmt its holders use
 	gorm.VerifHook = func(point string, args ...interface{}) {
 		if point == "ps:closer" {
-			id := g.entryID(args[0])
+			id := g.knownID(args[0])
+			if id == 0 {
+				return
+			}
 			hmu.Lock()
 			useStmt[id] = args[0].(*gorm.Stmt).Stmt
 			hmu.Unlock()
@@ -380,7 +397,10 @@ func Replay(s Schedule) (Obs, error) {
 		}
 		switch point {
 		case "ps:inserted", "ps:hit":
-			id := g.entryID(args[1])
+			id := g.knownID(args[1])
+			if point == "ps:inserted" {
+				id = g.entryID(args[1])
+			}
 			hmu.Lock()
 			entOf[gi] = id
 			hmu.Unlock()
